@@ -7,6 +7,13 @@ without sockets; incoming messages are built with the real factory, serialised, 
 2. a reference selection for Probe (all requested types offered AND all requested scopes matched) / Resolve (EPR published),
 3. a reference table of discovered services (EPR -> announcements since the last Bye),
 4. a reference window of remembered message ids (size = the node's own window size).
+
+Round 4: requests also arrive hand-written (vf/c14_wire.py: foreign prefixes, default namespace for QNames, other white space, <Address/>);
+publish / re-publish / clear / clear_local_services happen BETWEEN the requests; services carry a MatchBy of their own or no Scopes at all;
+Resolve addresses include the empty address, near misses of published ones, endpoints that are only known as remote services, and related
+endpoint references (prefix / case variants of each other); the content of ProbeMatch / ResolveMatch is compared with the current publication;
+Bye carries its optional parts (any MetadataVersion); InstanceId takes both ends of its range; the table is searched with type / scope filters
+(get_found_remote_services) against the reference selection; message ids come back with OTHER content, and after a handler that raised.
 """
 from __future__ import annotations
 
@@ -15,7 +22,7 @@ import re
 import threading
 import warnings
 
-from .. import core, urigen
+from .. import c14_wire, core, urigen
 from ..wsdharness import EnumRandom, RecordingNetworkingThread, VClock, mk_networking_thread
 
 MODULE = 'vf.props.c14'
@@ -208,6 +215,44 @@ def w_match(ctx: core.Ctx, arg):
                          'offered_parts': [ref_split(s2)[0], ref_split(s2)[1], [repr(x) for x in ref_segments(ref_split(s2)[2])]]})
         else:
             ctx.count('match.agree')
+    if arg['i'] == 0:
+        directed_pairs(ctx)
+
+
+# boundary spellings of the authority that the random grammar does not draw (all syntactically valid RFC 3986 URIs); rules rfc3986 and absent MatchBy
+DIRECTED_PAIRS = [
+    ('http://[v1.fe]/a', 'http://[v1.fe]/a/b', 'ipvfuture_authority'),
+    ('http://[v1.fe]/a', 'http://[V1.FE]/a/b', 'ipvfuture_authority'),   # ABNF literals are case-insensitive: "V1.FE" is the same IPvFuture literal
+    ('http://[V1.FE]/a', 'http://[v1.fe]/a', 'ipvfuture_authority'),
+    ('http://[V1.fe]/a/b', 'http://[V1.fe]/a', 'ipvfuture_authority'),
+    ('http://[v1.fe]/a', 'http://[v1.ff]/a', 'ipvfuture_authority'),
+    ('http://[v1.a:b]/', 'http://[v1.a:b]:80/', 'ipvfuture_authority'),
+    ('http://[fe80::1%25eth0]/a', 'http://[FE80::1%25eth0]/a/b', 'ipv6_zone_authority'),
+    ('http://[::ffff:1.2.3.4]/a', 'http://[::FFFF:1.2.3.4]/a', 'ipv6_v4mapped_authority'),
+    ('x://[::1]:/a', 'x://[::1]:/a/b', 'empty_port'),
+    ('http://h:/a', 'http://h/a', 'empty_port'),
+    ('http://u:p@[::1]:80/a', 'http://U:P@[::1]:80/a/b', 'userinfo'),
+    ('http://@h/a', 'http://h/a', 'userinfo'),
+]
+
+
+def directed_pairs(ctx):
+    from sdc11073.wsdiscovery.wsdimpl import MatchBy, match_scope
+    for s1, s2, cls in DIRECTED_PAIRS:
+        for rname, rule, lib_rule in (('rfc3986', RULE_URI, RULE_URI), ('rfc3986', RULE_URI, MatchBy.uri), ('default', None, None)):
+            want = ref_match(s1, s2, rule)
+            ctx.count('match.directed')
+            ctx.case(('match.directed', cls, rname, want))
+            try:
+                got = match_scope(s1, s2, lib_rule)
+            except Exception as ex:  # noqa: BLE001
+                ctx.witness(f'match.raises.rfc3986.{cls}', f'match_scope raised {type(ex).__name__}: {ex}', {'requested': s1, 'offered': s2, 'rule': rule, 'reference': want})
+                continue
+            if bool(got) != want:
+                ctx.witness(f'match.rfc3986.{"accepts" if got else "rejects"}.{cls}', f'match_scope says {bool(got)}, the matching rule says {want}',
+                            {'requested': s1, 'offered': s2, 'rule': rule})
+            else:
+                ctx.count('match.agree')
 
 
 # =============================================================================================
@@ -267,6 +312,11 @@ def build(msg: dict):
     if kind == 'bye':
         p = wsd_types.ByeType()
         p.EndpointReference.Address = msg['epr']
+        if 'v' in msg:  # the optional parts of a Bye
+            p.MetadataVersion = msg['v']
+            p.Types = None if msg.get('types') is None else [_qn(t) for t in msg['types']]
+            p.Scopes = None if msg.get('scopes') is None else _scopes_type(msg['scopes'])
+            p.XAddrs = None if msg.get('xaddrs') is None else list(msg['xaddrs'])
         return _finish(p, ADDRESS_ALL, appseq, mid=msg.get('mid'))
     if kind == 'probematches':
         p = wsd_types.ProbeMatchesType()
@@ -302,6 +352,14 @@ def wire(ctx, msg: dict):
     except ValidationError:
         ctx.count('gen.refused_by_factory')
         return None
+
+
+def wire_any(ctx, msg: dict, rng, raw_rate: float):
+    """the message from the real factory or (at raw_rate) hand-written the way another implementation might spell it (vf/c14_wire.py)."""
+    if rng.random() < raw_rate:
+        ctx.count('gen.raw')
+        return c14_wire.render(msg, rng), True
+    return wire(ctx, msg), False
 
 
 def parse(ctx, data: bytes | None):
@@ -364,12 +422,38 @@ def _selection_key(label, direction, cause, rname) -> str:
 # =============================================================================================
 # 2  Probe / Resolve against the reference selection
 # =============================================================================================
+# endpoint references that are prefixes / case variants / re-encodings of each other (and one that is also used as a transport address)
+EPR_RELATED = ['urn:uuid:svc-1', 'urn:uuid:svc-10', 'urn:uuid:SVC-1', 'urn:uuid:svc-1/', 'URN:UUID:svc-1', 'urn:uuid:svc', 'http://10.0.0.1:6464/x', 'urn:uuid:svc-1%30']
+REMOTE_ONLY_EPR = 'urn:uuid:only-known-as-remote-service'
+
+
+def _near_misses(epr: str) -> list[str]:
+    """addresses that are NOT epr but close to it"""
+    out = [epr[:-1], epr[1:], epr + '0', epr + '/', epr.swapcase(), epr.upper(), epr.lower(), epr + '%20', epr.replace('-', '%2D', 1), epr + '#', epr + '?']
+    return [x for x in dict.fromkeys(out) if x != epr]
+
+
+def _check_content(ctx, label, match, pub, context):
+    """a ProbeMatch / ResolveMatch stands for the service AS PUBLISHED NOW: a part it carries must be that of the current publication
+    (an absent / empty part is tolerated: the node may leave optional parts out)."""
+    ctx.count(f'{label}.content_checked')
+    got = {'types': _norm((t.namespace, t.localname) for t in match.Types) if match.Types else None,
+           'scopes': _norm(match.Scopes.text) if match.Scopes is not None and match.Scopes.text else None,
+           'xaddrs': _norm(match.XAddrs) if match.XAddrs else None}
+    want = {'types': _norm(tuple(t) for t in pub['types']), 'scopes': _norm(pub['scopes']), 'xaddrs': _norm(pub['xaddrs'])}
+    for field in ('types', 'scopes', 'xaddrs'):
+        if got[field] is not None and got[field] != want[field]:
+            ctx.witness(f'{label}.answer_content.{field}', f'the answer for a published endpoint carries {field} that are not those of its current publication',
+                        {'epr': match.EndpointReference.Address, 'carried': got[field], 'published': want[field], **context})
+
+
 def w_probe(ctx: core.Ctx, arg):
     warnings.simplefilter('ignore')
     from sdc11073.wsdiscovery.wsdimpl import filter_services
     from sdc11073.xml_types import wsd_types
     rng = ctx.rng('probe', arg['i'])
     pool_bytes = _pool_bytes(ctx.seed * 1000 + 50 + arg['i'], arg['pool'])
+    raw_rate = 0.35
     if not selfcheck_reference(ctx, rng, pool_bytes, 50):
         return
     for case in range(arg['n']):
@@ -382,32 +466,65 @@ def w_probe(ctx: core.Ctx, arg):
             o = urigen.derive(rng, b, v, pool_bytes) if v != 'invalid_utf8' else None
             return urigen.render_uri(o or b, rng)
 
-        model = {}      # epr -> (types, scopes)  = what is published right now
+        related = rng.random() < 0.35
+        epr_pool = rng.sample(EPR_RELATED, len(EPR_RELATED)) if related else [f'urn:uuid:svc-{j}' for j in range(8)]
+        interleave = rng.random() < 0.6
+        model = {}      # epr -> {'types', 'scopes' (None = published without Scopes), 'rule' (the service's OWN MatchBy), 'xaddrs'} = published right now
         history = []
-        for j in range(rng.choice([0, 1, 2, 3, 3, 4, 5, 6])):
-            epr = f'urn:uuid:svc-{j}'
+        cleared_ever = set()
+        state = {'serial': 0, 'mutations': 0, 'cleared_all': False}
+
+        def publish(epr, what):
+            state['serial'] += 1
             types = rng.sample(TYPE_UNIVERSE, rng.choice([0, 1, 1, 2, 3]))
-            scopes = [scope_near() for _ in range(rng.choice([0, 1, 1, 2, 3]))]
-            wsd.publish_service(epr, [_qn(t) for t in types], _scopes_type(scopes), [f'http://10.0.0.{j}:6464/x'])
-            model[epr] = (types, scopes)
-            history.append(('publish', epr))
+            if rng.random() < 0.06:
+                scopes, srule = None, None
+            else:
+                scopes = [scope_near() for _ in range(rng.choice([0, 1, 1, 2, 3]))]
+                srule = None if rng.random() < 0.8 else rng.choice([RULE_STRCMP, RULE_STRCMP, RULE_URI, rng.choice(UNKNOWN_RULES)])
+            xaddrs = [f'http://10.0.{state["serial"] // 250}.{state["serial"] % 250}:6464/x']
+            wsd.publish_service(epr, [_qn(t) for t in types], None if scopes is None else _scopes_type(scopes, srule), xaddrs)
+            model[epr] = {'types': types, 'scopes': scopes, 'rule': srule, 'xaddrs': xaddrs}
+            state['cleared_all'] = False
+            history.append((what, epr))
+
+        def clear(epr):
+            wsd.clear_service(epr)
+            del model[epr]
+            cleared_ever.add(epr)
+            history.append(('clear', epr))
+
+        def clear_all():
+            wsd.clear_local_services()
+            cleared_ever.update(model)
+            model.clear()
+            state['cleared_all'] = True
+            history.append(('clear_all', None))
+
+        def check_local_table():
+            rec.out.clear()
+            if set(wsd._local_services) != set(model):
+                ctx.witness('publish.local_table', 'the set of locally published endpoint references is not what publish/clear produced',
+                            {'have': sorted(wsd._local_services), 'want': sorted(model), 'history': history})
+
+        def mutate():
             r = rng.random()
-            if r < 0.15:
-                wsd.clear_service(epr)
-                del model[epr]
-                history.append(('clear', epr))
-            elif r < 0.3:  # re-publish with other content (metadata version 2)
-                types = rng.sample(TYPE_UNIVERSE, rng.choice([0, 1, 2]))
-                scopes = [scope_near() for _ in range(rng.choice([0, 1, 2]))]
-                wsd.publish_service(epr, [_qn(t) for t in types], _scopes_type(scopes), [f'http://10.0.0.{j}:6464/y'])
-                model[epr] = (types, scopes)
-                history.append(('republish', epr))
-        rec.out.clear()
-        if set(wsd._local_services) != set(model):
-            ctx.witness('publish.local_table', 'the set of locally published endpoint references is not what publish/clear produced',
-                        {'have': sorted(wsd._local_services), 'want': sorted(model), 'history': history})
-        # ---- probes
-        for pj in range(arg['probes']):
+            unused = [e for e in epr_pool if e not in model]
+            if r < 0.35 and unused:
+                publish(rng.choice(unused), 'publish')  # may be one that was cleared before
+            elif r < 0.6 and model:
+                publish(rng.choice(sorted(model)), 'republish')
+            elif r < 0.92 and model:
+                clear(rng.choice(sorted(model)))
+            elif r < 0.96:
+                clear_all()
+            else:
+                return
+            state['mutations'] += 1
+            ctx.count('probe.mutations_between_requests')
+            check_local_table()
+
+        def do_probe(pj):
             rname = rng.choice(['rfc3986', 'rfc3986', 'default', 'default', 'strcmp0', 'unknown'])
             rule = _rule_for(rng, rname)
             p_types = None if rng.random() < 0.3 else rng.sample(TYPE_UNIVERSE, rng.choice([0, 1, 1, 2]))
@@ -417,7 +534,7 @@ def w_probe(ctx: core.Ctx, arg):
                 p_scopes = []
                 for _ in range(rng.choice([0, 1, 1, 1, 2])):
                     if model and rng.random() < 0.6:  # derived from a scope that really is published
-                        sc = [s for _, ss in model.values() for s in ss]
+                        sc = [s for pub in model.values() for s in (pub['scopes'] or [])]
                         if sc and rng.random() < 0.5:
                             p_scopes.append(rng.choice(sc))
                             continue
@@ -425,70 +542,149 @@ def w_probe(ctx: core.Ctx, arg):
             if p_scopes is None and rname != 'default':
                 rname, rule = 'default', None
             msg = {'kind': 'probe', 'types': p_types, 'scopes': p_scopes, 'rule': rule}
-            rm = parse(ctx, wire(ctx, msg))
+            data, raw = wire_any(ctx, msg, rng, raw_rate)
+            rm = parse(ctx, data)
             if rm is None:
-                continue
-            want = {epr for epr, (t, s) in model.items() if ref_selects(t, s, p_types or [], p_scopes or [], rule)}
+                return
+            if raw:
+                ctx.count('gen.raw_accepted')
+            published = {e: (pub['types'], pub['scopes'], pub['rule']) for e, pub in model.items()}
+            want = {epr for epr, pub in model.items() if ref_selects(pub['types'], pub['scopes'] or [], p_types or [], p_scopes or [], rule)}
             try:
                 wsd.handle_received_message(rm, ('10.0.0.99', 3702))
                 direct = filter_services(list(wsd._local_services.values()), None if p_types is None else [_qn(t) for t in p_types],
                                          None if p_scopes is None else _scopes_type(p_scopes, rule))
             except Exception as ex:  # noqa: BLE001
-                ctx.witness(f'probe.raises.{rname}', f'handling a Probe raised {type(ex).__name__}: {ex}', {'probe': msg, 'published': model})
+                ctx.witness(f'probe.raises.{rname}', f'handling a Probe raised {type(ex).__name__}: {ex}', {'probe': msg, 'published': published})
                 rec.out.clear()
-                continue
+                return
             answered = []
+            matches = []
             other = []
             for action, out_rm, _ in _outbound(ctx, rec):
                 if action == 'ProbeMatches':
                     pms = wsd_types.ProbeMatchesType.from_node(out_rm.p_msg.msg_node)
                     answered.extend(m.EndpointReference.Address for m in pms.ProbeMatch)
+                    matches.extend(pms.ProbeMatch)
                 else:
                     other.append(action)
             ctx.count('probe.probes')
             ctx.count('probe.services_examined', len(model))
             ctx.count('probe.matches_expected', len(want))
             ctx.count(f'probe.rule.{rname}')
-            ctx.case(('probe', rname, len(model), len(want), p_types is None, len(p_types or []), p_scopes is None, len(p_scopes or [])))
+            if state['mutations']:
+                ctx.count('probe.after_mutation')
+                ctx.count('probe.after_mutation.matches_expected', len(want))
+            if state['cleared_all']:
+                ctx.count('probe.after_clear_all')
+            if p_scopes:
+                ctx.count('probe.service_own_matchby', sum(1 for pub in model.values() if pub['rule'] is not None and pub['scopes']))
+                ctx.count('probe.service_scopes_none', sum(1 for pub in model.values() if pub['scopes'] is None))
+            if len(answered) != len(set(answered)):
+                ctx.count('probe.same_service_answered_twice')  # not judged: the SET of answering services is what the statement fixes
+            ctx.case(('probe', rname, len(model), len(want), p_types is None, len(p_types or []), p_scopes is None, len(p_scopes or []),
+                      bool(state['mutations']), raw, related))
             if case == 0 and pj < 2:
-                ctx.sample({'kind': 'probe', 'published': model, 'probe': msg, 'reference_selection': sorted(want), 'answered': sorted(answered)})
+                ctx.sample({'kind': 'probe', 'published': published, 'probe': msg, 'hand_written_datagram': raw, 'reference_selection': sorted(want),
+                            'answered': sorted(answered)})
             for label, got in (('probe', set(answered)), ('filter_services', {s.epr for s in direct})):
                 for epr in sorted(got - want):
-                    t, s = model.get(epr, ([], []))
-                    cause = 'unpublished' if epr not in model else ('types' if any(x not in t for x in (p_types or [])) else _scope_cause(p_scopes, s, rule, rname))
+                    pub = model.get(epr)
+                    cause = 'unpublished' if pub is None else ('types' if any(x not in pub['types'] for x in (p_types or []))
+                                                               else _scope_cause(p_scopes, pub['scopes'] or [], rule, rname))
                     ctx.witness(_selection_key(label, 'answers_nonmatching', cause, rname), f'{label}: a service that does not satisfy the Probe was selected',
-                                {'epr': epr, 'service': model.get(epr), 'probe': msg})
+                                {'epr': epr, 'service': published.get(epr), 'probe': msg, 'history': history[-8:]})
                 for epr in sorted(want - got):
-                    cause = _scope_cause(p_scopes, model[epr][1], rule, rname) if p_scopes else 'types'
+                    cause = _scope_cause(p_scopes, model[epr]['scopes'] or [], rule, rname) if p_scopes else 'types'
                     ctx.witness(_selection_key(label, 'misses_matching', cause, rname), f'{label}: a published service satisfying the Probe was not selected',
-                                {'epr': epr, 'service': model.get(epr), 'probe': msg})
+                                {'epr': epr, 'service': published.get(epr), 'probe': msg, 'history': history[-8:]})
+            for m in matches:
+                epr = m.EndpointReference.Address
+                if epr in model and epr in want:
+                    _check_content(ctx, 'probe', m, model[epr], {'probe': msg, 'history': history[-8:]})
             if other:
                 ctx.witness('probe.other_message_sent', f'a Probe made the node queue {other}', {'probe': msg})
-        # ---- resolves
-        cleared = [e for k, e in history if k == 'clear' and e not in model]
-        for epr in list(model) + cleared + ['urn:uuid:never-published', 'urn:uuid:svc-99', 'http://10.0.0.1:6464/x']:
-            rm = parse(ctx, wire(ctx, {'kind': 'resolve', 'epr': epr}))
-            if rm is None:
-                continue
-            try:
-                wsd.handle_received_message(rm, ('10.0.0.99', 3702))
-            except Exception as ex:  # noqa: BLE001
-                ctx.witness('resolve.raises', f'handling a Resolve raised {type(ex).__name__}: {ex}', {'epr': epr})
-                rec.out.clear()
-                continue
-            got = []
-            for action, out_rm, _ in _outbound(ctx, rec):
-                if action == 'ResolveMatches':
-                    m = wsd_types.ResolveMatchesType.from_node(out_rm.p_msg.msg_node).ResolveMatch
-                    got.append(None if m is None else m.EndpointReference.Address)
-            ctx.count('resolve.published' if epr in model else 'resolve.unpublished')
-            ctx.case(('resolve', epr in model, epr in cleared))
-            if epr not in model and got:
-                ctx.witness('resolve.answered_unpublished.' + ('cleared' if epr in cleared else 'unknown'),
-                            'a Resolve for an endpoint reference that is not published was answered', {'epr': epr, 'answered': got, 'published': sorted(model)})
-            if epr in model and got != [epr]:
-                ctx.witness('resolve.published_' + ('unanswered' if not got else 'answered_wrong_epr'),
-                            'a Resolve for a published endpoint reference was not answered with exactly that endpoint', {'epr': epr, 'answered': got})
+
+        def do_resolves():
+            near = set()
+            for epr in sorted(model):
+                near.update(rng.sample(_near_misses(epr), 2))
+                near.add(model[epr]['xaddrs'][0])
+            targets = (sorted(model) + sorted(cleared_ever - set(model)) + ['urn:uuid:never-published', 'urn:uuid:svc-99', 'http://10.0.0.1:6464/x', '', 'urn:uuid:',
+                                                                             REMOTE_ONLY_EPR] + sorted(near))
+            for epr in dict.fromkeys(targets):
+                data, raw = wire_any(ctx, {'kind': 'resolve', 'epr': epr}, rng, raw_rate)
+                rm = parse(ctx, data)
+                if rm is None:
+                    continue
+                if raw:
+                    ctx.count('gen.raw_accepted')
+                try:
+                    wsd.handle_received_message(rm, ('10.0.0.99', 3702))
+                except Exception as ex:  # noqa: BLE001
+                    ctx.witness('resolve.raises', f'handling a Resolve raised {type(ex).__name__}: {ex}', {'epr': epr})
+                    rec.out.clear()
+                    continue
+                got = []
+                matches = []
+                for action, out_rm, _ in _outbound(ctx, rec):
+                    if action == 'ResolveMatches':
+                        m = wsd_types.ResolveMatchesType.from_node(out_rm.p_msg.msg_node).ResolveMatch
+                        got.append(None if m is None else m.EndpointReference.Address)
+                        if m is not None:
+                            matches.append(m)
+                if epr in model:
+                    cls = 'published'
+                    ctx.count('resolve.published')
+                else:
+                    cls = ('empty' if epr == '' else 'cleared' if epr in cleared_ever else 'remote' if epr == REMOTE_ONLY_EPR else 'near_miss' if epr in near
+                           else 'unknown')
+                    ctx.count('resolve.unpublished')
+                    ctx.count(f'resolve.unpublished.{cls}')
+                    if state['cleared_all']:
+                        ctx.count('resolve.after_clear_all')
+                ctx.case(('resolve', cls, raw, related, bool(state['mutations'])))
+                if epr not in model and got:
+                    ctx.witness(f'resolve.answered_unpublished.{cls}', 'a Resolve for an endpoint reference that is not published was answered',
+                                {'asked': epr, 'answered': got, 'published': sorted(model), 'history': history[-8:]})
+                if epr in model and got != [epr]:
+                    ctx.witness('resolve.published_' + ('unanswered' if not got else 'answered_wrong_epr'),
+                                'a Resolve for a published endpoint reference was not answered with exactly that endpoint',
+                                {'asked': epr, 'answered': got, 'published': sorted(model)})
+                if epr in model and got == [epr] and matches:
+                    _check_content(ctx, 'resolve', matches[0], model[epr], {'history': history[-8:]})
+
+        # ---- initial publications (as an application does at start-up)
+        for j in range(rng.choice([0, 1, 2, 3, 3, 4, 5, 6])):
+            epr = epr_pool[j]
+            publish(epr, 'publish')
+            r = rng.random()
+            if r < 0.15:
+                clear(epr)
+            elif r < 0.3:  # re-publish with other content (metadata version 2)
+                publish(epr, 'republish')
+        check_local_table()
+        # a service this node only DISCOVERED (it is in the table of remote services, it is not published here)
+        rm = parse(ctx, wire(ctx, {'kind': 'hello', 'appseq': (7, 1), 'items': [{'epr': REMOTE_ONLY_EPR, 'v': 1, 'types': [TYPE_UNIVERSE[0]], 'scopes': ['http://a/b'],
+                                                                                   'xaddrs': ['http://10.9.9.9/x']}]}))
+        wsd.handle_received_message(rm, ('10.0.0.98', 3702))
+        rec.out.clear()
+        # ---- probes, with publish / clear in between
+        for pj in range(arg['probes']):
+            if interleave and rng.random() < 0.45:
+                mutate()
+            do_probe(pj)
+        if interleave and rng.random() < 0.5:
+            mutate()
+        do_resolves()
+        # ---- everything withdrawn at once: nothing is published any more
+        if rng.random() < 0.3:
+            clear_all()
+            state['mutations'] += 1
+            check_local_table()
+            do_probe(99)
+            do_probe(99)
+            do_resolves()
 
 
 # =============================================================================================
@@ -549,18 +745,70 @@ def _gen_item(rng, eprs, scope_pool):
             'xaddrs': None if r() < 0.3 else [f'http://10.0.{rng.randrange(3)}.{rng.randrange(3)}:{rng.choice([6464, 80])}/p' for _ in range(rng.choice([0, 1, 1, 2, 3]))]}
 
 
+# endpoint references of remote services that are prefixes / case variants of each other: a Bye (or an announcement) for one must not touch another
+REMOTE_EPR_RELATED = ['urn:uuid:remote-1', 'urn:uuid:remote-10', 'urn:uuid:REMOTE-1', 'urn:uuid:remote-1/', 'URN:UUID:remote-1', 'urn:uuid:remote']
+
+
+def _remote_filter_check(ctx, wsd, rng, scope_structs, pool_bytes, trace):
+    """the table is searched with the same matching rules (get_found_remote_services -> filter_services); entries may lack Types / Scopes.
+    Reference selection over the entries' OWN content (what the table holds, right or wrong, is the other monitor's business)."""
+    rname = rng.choice(['rfc3986', 'default', 'default', 'strcmp0', 'unknown'])
+    rule = _rule_for(rng, rname)
+    f_types = None if rng.random() < 0.4 else rng.sample(TYPE_UNIVERSE, rng.choice([0, 1, 1, 2]))
+    if rng.random() < 0.35:
+        f_scopes = None
+    else:
+        f_scopes = []
+        for _ in range(rng.choice([0, 1, 1, 2])):
+            u = rng.choice(scope_structs)
+            if rng.random() < 0.5:
+                u = urigen.derive(rng, u, rng.choice(['seg_prefix', 'seg_prefix', 'reencode', 'scheme_case', 'string_prefix', 'longer']), pool_bytes) or u
+            f_scopes.append(urigen.render_uri(u, rng))
+    if f_scopes is None and rname != 'default':
+        rname, rule = 'default', None
+    entries = {epr: ([(t.namespace, t.localname) for t in (svc.types or [])], list(svc.scopes.text) if svc.scopes is not None else None)
+               for epr, svc in wsd._remote_services.items()}
+    want = {epr for epr, (t, sc) in entries.items() if ref_selects(t, sc or [], [tuple(x) for x in f_types or []], f_scopes or [], rule)}
+    ctx.count('remote_filter.queries')
+    ctx.count('remote_filter.entries_examined', len(entries))
+    ctx.count('remote_filter.selected_expected', len(want))
+    ctx.count('remote_filter.entries_without_scopes', sum(1 for _, sc in entries.values() if sc is None))
+    ctx.case(('remote_filter', rname, len(entries), len(want), f_types is None, len(f_types or []), f_scopes is None, len(f_scopes or [])))
+    flt = {'types': f_types, 'scopes': f_scopes, 'rule': rule}
+    try:
+        got = {s.epr for s in wsd.get_found_remote_services(None if f_types is None else [_qn(t) for t in f_types],
+                                                             None if f_scopes is None else _scopes_type(f_scopes, rule))}
+    except Exception as ex:  # noqa: BLE001
+        ctx.witness(f'remote_filter.raises.{rname}', f'searching the table of discovered services raised {type(ex).__name__}: {ex}',
+                    {'filter': flt, 'entries': entries, 'trace': trace[-6:]})
+        return
+    for epr in sorted(got - want):
+        t, sc = entries[epr]
+        cause = 'types' if any(tuple(x) not in t for x in (f_types or [])) else _scope_cause(f_scopes, sc or [], rule, rname)
+        ctx.witness(_selection_key('remote_filter', 'answers_nonmatching', cause, rname), 'a discovered service that does not satisfy the filter was selected',
+                    {'epr': epr, 'entry': entries[epr], 'filter': flt})
+    for epr in sorted(want - got):
+        cause = _scope_cause(f_scopes, entries[epr][1] or [], rule, rname) if f_scopes else 'types'
+        ctx.witness(_selection_key('remote_filter', 'misses_matching', cause, rname), 'a discovered service satisfying the filter was not selected',
+                    {'epr': epr, 'entry': entries[epr], 'filter': flt})
+
+
 def w_table(ctx: core.Ctx, arg):
     warnings.simplefilter('ignore')
     from sdc11073.wsdiscovery import wsdimpl
     rng = ctx.rng('table', arg['i'])
     pool_bytes = _pool_bytes(ctx.seed * 1000 + 80 + arg['i'], 50)
-    scope_pool = [urigen.render_uri(urigen.gen_uri(rng, pool_bytes), rng) for _ in range(30)]
+    scope_structs = [urigen.gen_uri(rng, pool_bytes) for _ in range(30)]
+    scope_pool = [urigen.render_uri(u, rng) for u in scope_structs]
+    raw_rate = 0.3
     for case in range(arg['n']):
         allow_missing = rng.random() < 0.25
         wsdimpl.allow_missing_app_sequence = allow_missing
         wsd, rec = _mk_wsd()
         model = TableModel()
-        eprs = [f'urn:uuid:remote-{k}' for k in range(rng.choice([1, 2, 3, 4]))]
+        n_eprs = rng.choice([1, 2, 3, 4])
+        related = rng.random() < 0.3
+        eprs = rng.sample(REMOTE_EPR_RELATED, n_eprs) if related else [f'urn:uuid:remote-{k}' for k in range(n_eprs)]
         trace = []
         sent = []
         kinds_seen = set()
@@ -568,50 +816,69 @@ def w_table(ctx: core.Ctx, arg):
         for step in range(arg['len']):
             r = rng.random()
             if sent and r < 0.12:
-                msg, data = rng.choice(sent)  # a duplicate datagram handled again (identical bytes)
+                msg, data, raw = rng.choice(sent)  # a duplicate datagram handled again (identical bytes)
                 dup = True
             else:
                 dup = False
                 kind = rng.choice(['hello', 'hello', 'hello', 'probematches', 'probematches', 'resolvematches', 'resolvematches', 'bye', 'bye'])
-                appseq = None if rng.random() < 0.12 else (rng.randrange(1, 1000), rng.randrange(1, 50))
+                if rng.random() < 0.12:
+                    appseq = None
+                else:  # InstanceId is an xs:unsignedInt: both ends of its range are ordinary values
+                    appseq = (rng.choice([0, 0, 1, 4294967295]) if rng.random() < 0.15 else rng.randrange(1, 1000), rng.randrange(1, 50))
                 if kind == 'bye':
                     msg = {'kind': 'bye', 'epr': rng.choice(eprs), 'appseq': appseq}
+                    if rng.random() < 0.4:  # a Bye may carry the optional parts of an announcement, its MetadataVersion may be anything
+                        it = _gen_item(rng, eprs, scope_pool)
+                        msg.update({'v': None if rng.random() < 0.2 else it['v'], 'types': it['types'], 'scopes': it['scopes'], 'xaddrs': it['xaddrs']})
                 elif kind == 'probematches':
                     msg = {'kind': kind, 'items': [_gen_item(rng, eprs, scope_pool) for _ in range(rng.choice([0, 1, 1, 2, 3]))], 'appseq': appseq}
                 elif kind == 'resolvematches':
                     msg = {'kind': kind, 'items': [] if rng.random() < 0.05 else [_gen_item(rng, eprs, scope_pool)], 'appseq': appseq}
                 else:
                     msg = {'kind': kind, 'items': [_gen_item(rng, eprs, scope_pool)], 'appseq': appseq}
-                data = wire(ctx, msg)
+                data, raw = wire_any(ctx, msg, rng, raw_rate)
                 if data is None:
                     continue
-                sent.append((msg, data))
+                sent.append((msg, data, raw))
             rm = parse(ctx, data)
             if rm is None:
                 continue
+            if raw and not dup:
+                ctx.count('gen.raw_accepted')
             try:
                 wsd.handle_received_message(rm, ('10.0.0.7', 3702))
             except Exception as ex:  # noqa: BLE001  (the receive loop logs and carries on; the statement says nothing about it)
                 ctx.count(f'table.handler_raised.{msg["kind"]}.{type(ex).__name__}')
             rec.out.clear()
             kind = msg['kind']
-            kinds_seen.add(kind + ('.dup' if dup else '') + ('' if msg.get('appseq') else '.noappseq'))
+            kinds_seen.add(kind + ('.dup' if dup else '') + ('' if msg.get('appseq') else '.noappseq') + ('.parts' if kind == 'bye' and 'v' in msg else ''))
             ctx.count(f'table.messages.{kind}')
             if kind == 'bye':
+                if 'v' in msg and msg['epr'] in model.ann:
+                    top = max(a[0] for a in model.ann[msg['epr']])
+                    ctx.count('table.bye_with_parts_for_known_entry')
+                    if msg['v'] is not None and msg['v'] < top:
+                        ctx.count('table.bye_with_lower_version_than_entry')
                 model.bye(msg['epr'])
             elif msg.get('appseq') or allow_missing:
+                if msg.get('appseq') and msg['appseq'][0] == 0 and msg['items']:
+                    ctx.count('table.announcements_with_instance_id_zero')
                 for item in msg['items']:
                     model.announce(item)
             else:
                 ctx.count('table.ignored_without_appsequence')
-            trace.append({'kind': kind, 'dup': dup, 'appseq': bool(msg.get('appseq')), 'epr': msg.get('epr'),
+            trace.append({'kind': kind, 'dup': dup, 'appseq': msg.get('appseq'), 'epr': msg.get('epr'), 'bye_version': msg.get('v'), 'hand_written_datagram': raw,
                           'items': [(i['epr'], i['v'], i['types'], i['scopes'], i['xaddrs']) for i in msg.get('items', [])]})
             ctx.count('table.checks')
+            if related:
+                ctx.count('table.checks_related_eprs')
             if not model.check(ctx, wsd._remote_services, trace, kind):
                 broken = True
                 break
+            if rng.random() < 0.12:
+                _remote_filter_check(ctx, wsd, rng, scope_structs, pool_bytes, trace)
         ctx.count('table.sequences')
-        ctx.case(('table', allow_missing, len(eprs), tuple(sorted(kinds_seen)), broken))
+        ctx.case(('table', allow_missing, len(eprs), related, tuple(sorted(kinds_seen)), broken))
         if case == 0:
             ctx.sample({'kind': 'announcement sequence', 'allow_missing_app_sequence': allow_missing, 'first_messages': trace[:6],
                         'final_table': {e: s.metadata_version for e, s in wsd._remote_services.items()}})
@@ -672,10 +939,9 @@ def w_dup(ctx: core.Ctx, arg):
         w = window or 200
         msgs = []   # (kind, data, mid)
 
-        def fresh(kind=None):
-            k = len(msgs)
-            kind = kind or rng.choice(['bye', 'bye', 'bye', 'hello', 'hello', 'probe', 'resolve', 'probematches'])
-            mid = f'urn:uuid:m-{case}-{k}'
+        KINDS = ['bye', 'bye', 'bye', 'hello', 'hello', 'probe', 'resolve', 'probematches', 'resolvematches', 'resolvematches_empty', 'hello_noxaddrs']
+
+        def mk(kind, k, mid):
             item = {'epr': f'urn:uuid:r-{k % 7}', 'v': rng.randrange(1, 5), 'types': [TYPE_UNIVERSE[0]], 'scopes': ['http://a/b'], 'xaddrs': ['http://10.1.1.1/x']}
             if kind == 'bye':
                 m = {'kind': 'bye', 'epr': item['epr'], 'appseq': (1, 1)}
@@ -683,12 +949,31 @@ def w_dup(ctx: core.Ctx, arg):
                 m = {'kind': 'probe', 'types': None, 'scopes': None}
             elif kind == 'resolve':
                 m = {'kind': 'resolve', 'epr': rng.choice(['urn:uuid:local-0', 'urn:uuid:nobody'])}
+            elif kind == 'resolvematches_empty':  # ResolveMatches without a ResolveMatch: schema-valid, the handler raises on it
+                m = {'kind': 'resolvematches', 'items': [], 'appseq': (1, 1)}
+            elif kind == 'hello_noxaddrs':  # makes the node send a Resolve of its own (one more id in its memory)
+                m = {'kind': 'hello', 'items': [{**item, 'xaddrs': None}], 'appseq': (1, 1)}
             else:
                 m = {'kind': kind, 'items': [item], 'appseq': (1, 1)}
             m['mid'] = mid
-            msgs.append((kind, build(m).serialize(), mid))
+            data = c14_wire.render(m, rng) if rng.random() < 0.2 else build(m).serialize()
+            msgs.append((kind, data, mid))
             return len(msgs) - 1
 
+        def fresh(kind=None):
+            k = len(msgs)
+            return mk(kind or rng.choice(KINDS), k, f'urn:uuid:m-{case}-{k}')
+
+        def again(mi, other=None):
+            """the same message id once more: the identical datagram or (another sender re-using the id, a re-serialised copy) another message with that id"""
+            if not (rng.random() < 0.3 if other is None else other):
+                return mi
+            kind = rng.choice([k for k in KINDS if k != msgs[mi][0]])
+            idx = mk(kind, len(msgs), msgs[mi][2])
+            other_body.add(idx)
+            return idx
+
+        other_body = set()
         feed = []   # indexes into msgs
         plan = arg['plan']
         if plan == 'edge':
@@ -697,14 +982,19 @@ def w_dup(ctx: core.Ctx, arg):
                 x = fresh()
                 feed.append(x)
                 feed.extend(fresh('bye') for _ in range(gap))  # Bye: no answer, exactly one id per datagram
-                feed.append(x)
+                feed.append(again(x))
                 feed.extend(fresh() for _ in range(3))
+            # directed: an id whose first handling raised, and an id that comes back with another message around it
+            x = fresh('resolvematches_empty')
+            feed.extend([x, fresh('bye'), x, again(x, other=True)])
+            y = fresh('hello')
+            feed.extend([y, again(y, other=True), fresh('probe'), again(y, other=True)])
         else:
             for _ in range(arg['len']):
                 r = rng.random()
                 if feed and r < 0.35:
                     back = rng.choice([1, 1, 2, 3, 5, 10, 50, w - 1, w, w + 10, 3 * w])
-                    feed.append(feed[max(0, len(feed) - back)])
+                    feed.append(again(feed[max(0, len(feed) - back)]))
                 elif feed and r < 0.40:
                     feed.extend([feed[-1]] * rng.randrange(1, 4))  # UDP repetition burst
                 else:
@@ -713,7 +1003,7 @@ def w_dup(ctx: core.Ctx, arg):
         for pos, mi in enumerate(feed):
             if pos in garbage:
                 thread._read_queue.put((('10.0.0.1', 9999), garbage[pos]))
-            thread._read_queue.put((('10.0.0.1', 10000 + pos), msgs[mi][1]))
+            thread._read_queue.put(((f'10.0.0.{1 + pos % 3}', 10000 + pos), msgs[mi][1]))  # the sender address is no part of the id
         sentinel = build({'kind': 'bye', 'epr': 'urn:uuid:nobody', 'appseq': (1, 1), 'mid': 'urn:uuid:sentinel'}).serialize()
         thread._read_queue.put((('10.0.0.1', 10000 + len(feed)), sentinel))
         th = threading.Thread(target=thread._run_q_read, daemon=True)
@@ -729,17 +1019,25 @@ def w_dup(ctx: core.Ctx, arg):
         model = collections.deque(pre_out, maxlen=window)
         model.reverse()
         acted = collections.Counter()
+        first_pos = {}
+        raised_kinds = ('resolvematches_empty',)
         for pos, mi in enumerate(feed):
             kind, _, mid = msgs[mi]
             remembered = mid in model
             was_handled = pos in handled
+            first_pos.setdefault(mid, pos)
             ctx.count('dup.datagrams')
             if remembered:
                 ctx.count('dup.repeats_inside_window')
+                if mi in other_body:
+                    ctx.count('dup.repeats_inside_window.same_id_other_message')
+                if msgs[feed[first_pos[mid]]][0] in raised_kinds:
+                    ctx.count('dup.repeats_inside_window.first_handling_raised')
                 if was_handled:
-                    ctx.witness(f'dup.acted_again_inside_window.{kind}',
+                    ctx.witness('dup.acted_again_inside_window.' + ('same_id_other_message' if mi in other_body else kind),
                                 f'message id handled again although it is among the last {window} ids the node has seen',
-                                {'position': pos, 'first_position': feed.index(mi), 'ids_since': len(set(feed[feed.index(mi):pos])), 'window': window})
+                                {'position': pos, 'first_position': first_pos[mid], 'first_kind': msgs[feed[first_pos[mid]]][0], 'kind': kind,
+                                 'ids_since': len({msgs[x][2] for x in feed[first_pos[mid]:pos]}), 'window': window})
                 else:
                     ctx.count('dup.suppressed_inside_window')
             else:
@@ -755,17 +1053,20 @@ def w_dup(ctx: core.Ctx, arg):
                 for o in handled[pos]:
                     model.appendleft(o)
         ctx.count('dup.runs')
-        ctx.case(('dup', plan, len(feed) // 50, sum(1 for v in acted.values() if v > 1)))
+        ctx.case(('dup', plan, len(feed) // 50, sum(1 for v in acted.values() if v > 1), len(other_body) // 5))
         if case == 0:
-            ctx.sample({'kind': 'duplicate filter', 'plan': plan, 'datagrams': len(feed), 'distinct_ids': len(set(feed)), 'handled': len(log) - 1, 'window': window})
+            ctx.sample({'kind': 'duplicate filter', 'plan': plan, 'datagrams': len(feed), 'distinct_ids': len({msgs[x][2] for x in feed}), 'handled': len(log) - 1, 'window': window})
 
 
 def run(ctx: core.Ctx):
     ctx.rule = ('(1) one case = one (requested scope, offered scope, rule) triple from a URI grammar (base URI + a named relation: re-encoding, case changes, '
                 'segment prefix, string prefix, %2F vs /, empty segments, trailing slash, ...), distinct = (rule, relation, reference answer, segment counts); '
-                '(2) one case = one Probe / Resolve handled by a WSDiscovery with 0-6 published services, distinct = (rule, #services, #selected, shape of the filter); '
-                '(3) one case = one sequence of Hello/ProbeMatches/ResolveMatches/Bye, table compared after every message, distinct = set of message kinds seen; '
-                '(4) one case = one datagram feed through the real receive loop; non-trivial = every case')
+                '(2) one case = one Probe / Resolve handled by a WSDiscovery with 0-6 published services, publish / re-publish / clear / clear-all between the requests, '
+                'Resolve addresses = published, cleared, unknown, empty, near misses of published ones, a service only known as remote; messages from the real factory '
+                'or hand-written with foreign prefixes; distinct = (rule, #services, #selected, shape of the filter, mutated, hand-written) / (class of the address); '
+                '(3) one case = one sequence of Hello/ProbeMatches/ResolveMatches/Bye (Bye with and without optional parts), table compared after every message, '
+                'distinct = set of message kinds seen; plus searches of the table with type / scope filters, distinct as for a Probe; '
+                '(4) one case = one datagram feed through the real receive loop (ids repeated with identical and with other content); non-trivial = every case')
     q = ctx.quick
     jobs = []
     for i in range(8 if q else 48):  # thorough: many short jobs, so that no worker comes near the wall-clock watchdog on a loaded machine
@@ -782,6 +1083,7 @@ def run(ctx: core.Ctx):
         ctx.floor(f'match.{rname}.ref_true', 500)
         ctx.floor(f'match.{rname}.ref_false', 500)
     ctx.floor('match.unknown.ref_false', 500)
+    ctx.floor('match.directed', 30)
     ctx.floor('probe.probes', 1000)
     ctx.floor('probe.matches_expected', 300)
     ctx.floor('resolve.published', 300)
@@ -792,6 +1094,27 @@ def run(ctx: core.Ctx):
     ctx.floor('table.messages.bye', 1000)
     ctx.floor('dup.suppressed_inside_window', 200)
     ctx.floor('dup.repeats_after_eviction', 5)
+    # round 4
+    ctx.floor('gen.raw_accepted', 2000)
+    ctx.floor('probe.after_mutation', 300)
+    ctx.floor('probe.after_mutation.matches_expected', 100)
+    ctx.floor('probe.after_clear_all', 100)
+    ctx.floor('probe.service_own_matchby', 100)
+    ctx.floor('probe.service_scopes_none', 30)
+    ctx.floor('probe.content_checked', 300)
+    ctx.floor('resolve.content_checked', 300)
+    for cls, n in (('empty', 200), ('near_miss', 500), ('remote', 200), ('cleared', 200), ('unknown', 500)):
+        ctx.floor(f'resolve.unpublished.{cls}', n)
+    ctx.floor('resolve.after_clear_all', 200)
+    ctx.floor('table.announcements_with_instance_id_zero', 300)
+    ctx.floor('table.bye_with_parts_for_known_entry', 500)
+    ctx.floor('table.bye_with_lower_version_than_entry', 200)
+    ctx.floor('table.checks_related_eprs', 3000)
+    ctx.floor('remote_filter.queries', 2000)
+    ctx.floor('remote_filter.selected_expected', 500)
+    ctx.floor('remote_filter.entries_without_scopes', 200)
+    ctx.floor('dup.repeats_inside_window.same_id_other_message', 100)
+    ctx.floor('dup.repeats_inside_window.first_handling_raised', 40)
     ctx.assumptions += [
         'judged rules: rfc3986, absent MatchBy (= rfc3986, the WS-Discovery default), strcmp0, and unknown rule URIs (no match); ldap / uuid / empty MatchBy are not judged',
         'scheme, authority and path are the only compared components (query and fragment are not part of the comparison); an absent and an empty authority are the same; '
@@ -800,7 +1123,13 @@ def run(ctx: core.Ctx):
         'table oracle: entry version = highest version announced since the last Bye; types / scopes / addresses each equal those of SOME announcement with that version '
         '(the library merges equal-version announcements field by field; absent and empty lists are not distinguished)',
         'an announcement without AppSequence counts only if wsdimpl.allow_missing_app_sequence is set (documented switch; both settings are exercised)',
-        'Resolve: "answered iff published" is checked in both directions (the statement literally demands only "answered => published")',
+        'Resolve: "answered iff published" is checked in both directions (the statement literally demands only "answered => published"); an endpoint reference is '
+        'published iff its address is, character by character, the epr of a service published and not cleared since (no case folding, no prefix, no decoding)',
+        'the rule of a Probe is the MatchBy of the PROBE; a MatchBy on the scopes a service was published / announced with does not take part',
+        'a ProbeMatch / ResolveMatch may leave optional parts out; a part it carries (types, scopes, addresses) must be that of the current publication of the endpoint',
+        'a Bye ends the history of its endpoint reference whatever optional parts (MetadataVersion, ...) it carries',
+        'searching the table (get_found_remote_services) uses the same rules as answering a Probe; judged against the entries as they are in the table',
+        'a message id that comes back with other content (other action, other sender) is still the same id',
         'remembered ids: window size read from the node itself (deque maxlen), own outbound ids take places in it',
     ]
 
